@@ -562,6 +562,12 @@ def main():
         for f in u['failures']:
             if prop not in f['props'] and os.environ.get('VERIF_ANY_PROP') != '1':  # VERIF_ANY_PROP: mutation sweep only (a failure charged to ANY property rejects the mutant)
                 continue
+            if prop == 'C18':
+                # C18 (the output is a function of the arguments) is established by every function verifying against its spec function; a
+                # function that no longer verifies has lost that argument, but a wrong result is not a non-deterministic one: UNDECIDED for
+                # C18 (the purity scan and the witness search decide), the violation belongs to the property the failing clause states
+                undecided.append({'reason': 'function-not-proved-equal-to-its-spec', 'unit': u['unit'], 'detail': 'determinism of %s is no longer established (%s)' % (', '.join(f['blocks']) or 'a lemma', (f['labels'] or [f['message'][:60]])[0])})
+                continue
             lab = (f['labels'] or ['%s.%s' % (prop, (f['blocks'] or ['spec'])[0].split('::')[-1])])
             lab = [l for l in lab if l.startswith(prop + '.')] or lab
             k = [k for k in known['findings'] if k.get('status') == 'open' and k['property'] == prop and k['label'] in lab]
